@@ -76,7 +76,10 @@ class World:
             p += 2 * nr
             out.append({"from": frm, "addr": addr, "data": data, "noack": bool(noack), "attempts": attempts,
                         "ok": bool(ok), "receivers": [(a, b & 7) for a, b in raw], "raw_receivers": raw,
-                        "acked_by": [a for a, b in raw if b >= 8]})
+                        "acked_by": [a for a, b in raw if b & 8],
+                        # received but not stored: RX FIFO full, or taken for a re-transmission of the previous packet
+                        # (same 2-bit PID, same payload) in every attempt -- the transmitter cannot tell
+                        "dropped_by": sorted(a for a in set(x for x, _b in raw) if all(b & 16 for x, b in raw if x == a))})
         return out
 
     def run_hooks(self):
